@@ -27,6 +27,7 @@ import MenpoModel.Core.C06Heap
 import MenpoModel.Lemmas.C06Total
 import MenpoModel.Core.C06Ops
 import MenpoModel.Core.C06Landmarks
+import MenpoModel.Core.C06Src
 import MenpoModel.Generated.C06AttrKinds
 
 namespace MenpoModel.Drive.C06
@@ -100,7 +101,7 @@ def stepCopy (rest : List String) : String :=
     | .ok (h', v') =>
       let entries := dump res h.length (h'.length + 1) h' .full "." v'
       s!"ok wt={b01 (wtHeap Generated.attrKinds Generated.copySupplier h)} closed={b01 (closedB h)} " ++
-        s!"ord={b01 (orderedB h)} " ++
+        s!"ord={b01 (orderedB h)} pyd={b01 (pyDictB h && pyDictB h')} " ++
         s!"n0={h.length} n1={h'.length} " ++ " ".intercalate entries
 
 /-! ### heap histories -/
@@ -119,6 +120,7 @@ def relocCell (n : Nat) : Cell → Cell
 inductive ROp where
   | op (o : HOp)
   | fresh (i : Nat) (p : Path) (x : String) (frag : List Cell)
+  | touch (i : Nat) (p : Path)   -- first access of `.landmarks`: the fragment is the model's (`Src.lmFrag`), not sent
 
 def pHOp : P ROp := do
   let t ← tok
@@ -126,6 +128,7 @@ def pHOp : P ROp := do
   | "C" => do let i ← pNat; pure (.op (.copy i))
   | "W" => do let i ← pNat; let p ← pPath; pure (.op (.write i p [1]))
   | "F" => do let i ← pNat; let p ← pPath; let x ← tok; let frag ← pList pCell; pure (.fresh i p x frag)
+  | "T" => do let i ← pNat; let p ← pPath; pure (.touch i p)
   | "I" => do let i ← pNat; let p ← pPath; let x ← tok; pure (.op (.putImm i p x))
   | "P" => do let i ← pNat; let p ← pPath; let x ← tok; let j ← pNat; let q ← pPath; pure (.op (.putCopy i p x j q))
   | "D" => do let i ← pNat; let p ← pPath; let x ← tok; pure (.op (.del i p x))
@@ -184,6 +187,7 @@ def stepHist (rest : List String) : String :=
       let op : HOp := match rop with
         | .op o => o
         | .fresh i p x frag => .putFresh i p x (frag.map (relocCell w.heap.length))
+        | .touch i p => .putFresh i p "_landmarks" (Src.lmFrag w.heap.length)
       match stepH Generated.attrKinds Generated.copySupplier w op with
       | .ok w' => (w', (s!"ok wt={b01 (wtHeap Generated.attrKinds Generated.copySupplier w'.heap)} # " ++
           dumpWorld w') :: acc.2)
